@@ -78,6 +78,7 @@ def witnesses():
         "C01-multiline-setext": _differs("a\\\nb\n===\n", width=88, semantic=False),
         "C01-ordered-delimiter-merge": _differs("1. a\n\n1) b\n", width=88, semantic=False),
         "C01-closing-tag-unindented": _differs("- {% f %}\n  - i1\n  {% /f %}\n", width=88, semantic=False),
+        "C01-hard-break-after-delimiter-run": _differs("a *  \nb 2*3*4\n", width=88, semantic=False),
     }
 
 
